@@ -434,30 +434,142 @@ def check_siblings(repo, res):
 
 # ------------------------------------------------------------------------------------------ role
 def check_role(repo, res):
+    """from_bipartite_graph: which endpoint is the hyperedge is decided by membership in the recorded `edges` list, and for
+    a DiGraph the direction of every membership is read off the arc that is being enumerated."""
     fn = fn_of(repo, "xgi.convert.bipartite_graph", "from_bipartite_graph")
     par = {}
     for p in ast.walk(fn.node):
         for ch in ast.iter_child_nodes(p):
             par[ch] = p
-    sites = 0
-    for loop in ast.walk(fn.node):
-        if not (isinstance(loop, ast.For) and isinstance(loop.target, ast.Tuple) and len(loop.target.elts) == 2 and isinstance(loop.iter, ast.Attribute) and loop.iter.attr == "edges"):
+    gname = fn.params[0]
+
+    def source_kind(it):
+        """('arcs', None) for G.edges; ('pred'|'succ', e) for per-vertex arc enumerations; ('vertices', e) for neighbourhoods."""
+        txt = unparse(it, 60)
+        it2 = it.func if isinstance(it, ast.Call) and not it.args and isinstance(it.func, ast.Attribute) else it
+        if isinstance(it2, ast.Attribute) and it2.attr == "edges" and isinstance(it2.value, ast.Name) and it2.value.id == gname:
+            return "arcs", None
+        if isinstance(it, ast.Call) and isinstance(it.func, ast.Attribute) and isinstance(it.func.value, ast.Name) and it.func.value.id == gname and it.args:
+            a = it.func.attr
+            if a in ("predecessors", "in_edges"):
+                return "pred", it.args[0]
+            if a in ("successors", "out_edges"):
+                return "succ", it.args[0]
+            if a in ("neighbors",):
+                return "vertices", it.args[0]
+        if isinstance(it, ast.Subscript) and isinstance(it.value, ast.Attribute) and isinstance(it.value.value, ast.Name) and it.value.value.id == gname:
+            if it.value.attr == "pred":
+                return "pred", it.slice
+            if it.value.attr == "succ":
+                return "succ", it.slice
+            if it.value.attr == "adj":
+                return "vertices", it.slice
+        if isinstance(it, ast.Subscript) and isinstance(it.value, ast.Name) and it.value.id == gname:
+            return "vertices", it.slice
+        if isinstance(it, ast.Call) and getattr(it.func, "attr", getattr(it.func, "id", "")) == "all_neighbors" and len(it.args) == 2:
+            return "vertices", it.args[1]
+        if isinstance(it, ast.Name) and it.id in ("edges", "nodes"):
+            return "role-list", it.id
+        return None, txt
+
+    def enclosing(c):
+        loops, tests = [], []
+        p = c
+        while p in par:
+            prev, p = p, par[p]
+            if isinstance(p, ast.For):
+                loops.append(p)
+            if isinstance(p, ast.If) and prev is not p.test:
+                tests.append((p.test, prev in p.body))
+        return loops, tests
+
+    def in_edges_fact(name, loops, tests):
+        """Is `name` known to be one of the recorded hyperedge vertices at this call?"""
+        for lp in loops:
+            if isinstance(lp.iter, ast.Name) and lp.iter.id == "edges" and isinstance(lp.target, ast.Name) and lp.target.id == name:
+                return True
+        for t, branch in tests:
+            if isinstance(t, ast.Compare) and len(t.ops) == 1 and isinstance(t.left, ast.Name) and isinstance(t.comparators[0], ast.Name) and t.left.id == name:
+                lst, op = t.comparators[0].id, t.ops[0]
+                if lst == "edges" and ((isinstance(op, ast.In) and branch) or (isinstance(op, ast.NotIn) and not branch)):
+                    return True
+                if lst == "nodes" and ((isinstance(op, ast.In) and not branch) or (isinstance(op, ast.NotIn) and branch)):
+                    return True
+        # else-branch of `other in edges` inside a loop over arcs (u, v): the graph was verified bipartite, so exactly one
+        # endpoint of every arc is a hyperedge
+        for lp in loops:
+            if isinstance(lp.target, ast.Tuple) and len(lp.target.elts) == 2 and all(isinstance(e, ast.Name) for e in lp.target.elts):
+                u, v = (e.id for e in lp.target.elts)
+                other = v if name == u else (u if name == v else None)
+                if other is None:
+                    continue
+                for t, branch in tests:
+                    if isinstance(t, ast.Compare) and len(t.ops) == 1 and isinstance(t.left, ast.Name) and t.left.id == other and isinstance(t.comparators[0], ast.Name):
+                        lst, op = t.comparators[0].id, t.ops[0]
+                        if lst == "edges" and ((isinstance(op, ast.In) and not branch) or (isinstance(op, ast.NotIn) and branch)):
+                            return True
+                        if lst == "nodes" and ((isinstance(op, ast.In) and branch) or (isinstance(op, ast.NotIn) and not branch)):
+                            return True
+        return False
+
+    sites = directed_sites = 0
+    for c in ast.walk(fn.node):
+        if not (isinstance(c, ast.Call) and getattr(c.func, "attr", "") == "add_node_to_edge" and len(c.args) >= 2):
             continue
-        u, v = (e.id for e in loop.target.elts)
-        for c in ast.walk(loop):
-            if isinstance(c, ast.Call) and getattr(c.func, "attr", "") == "add_node_to_edge":
-                sites += 1
-                # guarded by a membership test of u or v in a recorded set
-                p = c
-                ok = False
-                while p in par and p is not loop:
-                    p = par[p]
-                    if isinstance(p, ast.If):
-                        for t in ast.walk(p.test):
-                            if isinstance(t, ast.Compare) and isinstance(t.ops[0], (ast.In, ast.NotIn)) and isinstance(t.left, ast.Name) and t.left.id in (u, v) and isinstance(t.comparators[0], ast.Name) and t.comparators[0].id in ("edges", "nodes"):
-                                ok = True
-                res.inst("T-ROLE", f"from_bipartite_graph:{c.lineno} endpoint roles decided by membership test", ok)
-                if not ok:
-                    res.add(mk_finding(PROP, "T-ROLE", fn, c, f"from_bipartite_graph: `{unparse(c, 50)}` assumes which endpoint of the graph edge is the hyperedge from its position; for an undirected graph that depends on the order in which the vertices were inserted", role="role"))
-    if sites < 3:
+        sites += 1
+        loops, tests = enclosing(c)
+        e_arg, n_arg = c.args[0], c.args[1]
+        ok = isinstance(e_arg, ast.Name) and in_edges_fact(e_arg.id, loops, tests)
+        res.inst("T-ROLE", f"from_bipartite_graph:{c.lineno} endpoint roles decided by membership test", ok)
+        if not ok:
+            res.add(mk_finding(PROP, "T-ROLE", fn, c, f"from_bipartite_graph: `{unparse(c, 50)}` assumes which endpoint of the graph edge is the hyperedge from its position; for an undirected graph that depends on the order in which the vertices were inserted", role="role"))
+        dkw = [k.value for k in c.keywords if k.arg == "direction"] + list(c.args[2:3])
+        if not dkw:
+            continue
+        directed_sites += 1
+        # the innermost loop that binds the node argument decides what is being enumerated
+        src = None
+        for lp in loops:
+            names = {n.id for n in ast.walk(lp.target) if isinstance(n, ast.Name)}
+            if isinstance(n_arg, ast.Name) and n_arg.id in names:
+                src = (lp, source_kind(lp.iter))
+                break
+        if src is None:
+            raise AnalysisError(f"from_bipartite_graph:{c.lineno}: cannot find the loop that enumerates `{unparse(n_arg)}` (extractor does not recognise the code)")
+        lp, (kind, what) = src
+        if kind is None:
+            raise AnalysisError(f"from_bipartite_graph:{c.lineno}: unknown enumeration `{what}` for a directed membership (extractor does not recognise the code)")
+        d = dkw[0]
+        if kind in ("vertices", "role-list"):
+            res.inst("T-ROLE", f"from_bipartite_graph:{c.lineno} direction read off the enumerated arc", False)
+            res.add(mk_finding(PROP, "T-ROLE", fn, c, f"from_bipartite_graph: the direction of `{unparse(c, 60)}` is decided while enumerating vertices (`{unparse(lp.iter, 40)}`), not arcs; a node joined to the hyperedge by both arcs (in its tail and in its head) is visited without knowing which arc it stands for, so one of its two memberships is lost or doubled", role="direction"))
+            continue
+        if not (isinstance(d, ast.Constant) and d.value in ("in", "out")):
+            raise AnalysisError(f"from_bipartite_graph:{c.lineno}: direction `{unparse(d)}` is not a literal (extractor does not recognise the code)")
+        if kind == "arcs":
+            u, v = (e.id for e in lp.target.elts) if isinstance(lp.target, ast.Tuple) and len(lp.target.elts) == 2 else (None, None)
+            want = "in" if isinstance(e_arg, ast.Name) and e_arg.id == v else ("out" if isinstance(e_arg, ast.Name) and e_arg.id == u else None)
+        else:
+            want = "in" if kind == "pred" else "out"
+        ok = want == d.value
+        res.inst("T-ROLE", f"from_bipartite_graph:{c.lineno} direction {d.value!r} matches the arc orientation", ok)
+        if not ok:
+            res.add(mk_finding(PROP, "T-ROLE", fn, c, f"from_bipartite_graph: `{unparse(c, 60)}` records direction {d.value!r} for an arc whose orientation means {want!r} (to_bipartite_graph writes tail nodes as node->edge arcs); tail and head are exchanged on the way back", role="direction"))
+    if sites < 2 or directed_sites < 1:
         raise AnalysisError("from_bipartite_graph: fewer add_node_to_edge sites than expected (extractor does not recognise the code)")
+    # the writer side of the same convention: tail nodes are written as node->edge arcs, head nodes as edge->node arcs
+    w = fn_of(repo, "xgi.convert.bipartite_graph", "to_bipartite_graph")
+    n_w = 0
+    for lp in ast.walk(w.node):
+        if isinstance(lp, ast.For) and isinstance(lp.iter, ast.Call) and getattr(lp.iter.func, "attr", "") in ("tail", "head"):
+            side = lp.iter.func.attr
+            for c in ast.walk(lp):
+                if isinstance(c, ast.Call) and getattr(c.func, "attr", "") == "add_edge" and len(c.args) >= 2:
+                    n_w += 1
+                    first_is_node = "node_dict" in unparse(c.args[0])
+                    ok = first_is_node == (side == "tail")
+                    res.inst("T-ROLE", f"to_bipartite_graph:{c.lineno} {side} nodes written as {'node->edge' if first_is_node else 'edge->node'} arcs", ok)
+                    if not ok:
+                        res.add(mk_finding(PROP, "T-ROLE", w, c, f"to_bipartite_graph writes {side} nodes as {'node->edge' if first_is_node else 'edge->node'} arcs, the opposite of what from_bipartite_graph reads", role=side))
+    if n_w < 2:
+        raise AnalysisError("to_bipartite_graph: tail/head arc writers not found (extractor does not recognise the code)")
